@@ -506,6 +506,7 @@ class Interpreter(BaseInterpreter[TContext, TEvent]):
                 try:
                     self._processing = True
                     await self._process_event_and_transient_transitions(event)
+                    self._fail_if_unhandled(event)
                 except asyncio.CancelledError:
                     raise
                 except Exception as exc:
@@ -1194,10 +1195,19 @@ class Interpreter(BaseInterpreter[TContext, TEvent]):
             # 🚨 If nothing handles the error event, the failure is
             #    unhandled and must be observable rather than merely logged.
             handled = self._has_error_handler(invocation)
+            deferred = False
+            if not handled:
+                try:
+                    # 🏷️ The run loop fails the machine once it has
+                    #    processed this event (see `_fail_if_unhandled`).
+                    error_event.unhandled_failure = e
+                    deferred = True
+                except AttributeError:  # an unstamped, plain DoneEvent
+                    pass
             await self.send(error_event)
             for plugin in self._plugins:
                 plugin.on_service_error(self, invocation, e)
-            if not handled:
+            if not handled and not deferred:
                 self._fail(e)
 
     def _invoke_service(
